@@ -26,6 +26,22 @@ CLAIMS = {
              "'exactly once / off = identity / missing spec is an error' are tied by differential runs of the real engine (T1-T3).",
         technique="Coq proof (Rounding.v) + reflective vm_compute obligation on regenerated YAML + differential engine runs",
         design="6/C10"),
+    "C11": dict(
+        text="Theorems for all columns and all id assignments (unsorted, sparse): the table entry of a group is the reduction of the "
+             "values of exactly its members; every member reads the same value; sum and count in closed form; order independence for "
+             "commutative-associative reductions; sum_by_p_id credits each row to exactly the person pointed to and ignores negative "
+             "pointers; join looks up the pointed-to row. The model is tied to aggregation_numpy / join_numpy by U2 (values, dtype, "
+             "exception class) and the loader precedence rules by engine runs T4.",
+        technique="Coq proof (Aggregation.v: model = specification) + differential correspondence U2/T4",
+        design="6/C11"),
+    "C12": dict(
+        text="General theorems for the arithmetic builders (wthh = hh*100+flag, bg within fg, no collisions below 100 rows). Bounded "
+             "exhaustive theorems discharged by vm_compute on every run: for every well-formed pointer structure of up to 3 persons and "
+             "every row order, fg/eg/ehe/sn partitions equal the reference partition (connected components of the unit definitions), "
+             "with a proved refutation of the unrepaired fg builder. U3 ties the model to groupings.py (ids equal, numbering included) "
+             "and checks the real builders against an independent reference exhaustively up to 3 (thorough 4) persons in all orders.",
+        technique="Coq proof (general for wthh/bg; bounded-exhaustive vm_compute for fg/eg/ehe/sn) + exhaustive differential correspondence U3",
+        design="6/C12"),
     "C18": dict(
         text="Theorems (for all schedules and all rational arguments): the model of piecewise_polynomial returns the "
              "mathematical value at every finite point, thresholds included; reflective shape checkers (zero below, "
